@@ -101,6 +101,26 @@ try:
             except BaseException as ex:  # noqa: BLE001
                 b2 = 'raise %s' % type(ex).__name__
             out['results'][parser + ' | ' + sel + ' | limit'] = [a2, b2]
+    # an XML document with namespaced attributes and a document-declared prefix spelled `html`: Beautiful Soup hands the
+    # document's own prefix map to soupsieve
+    if spec.get('markup3'):
+        soup = bs4.BeautifulSoup(spec['markup3'], 'xml')
+        nsdoc = dict(soup._namespaces)
+
+        def lab3(xs):
+            return [[x.name, x.get('id')] for x in xs]
+        for sel in spec['selectors3']:
+            try:
+                a = lab3(soup.select(sel))
+            except BaseException as ex:  # noqa: BLE001
+                a = 'raise %s' % type(ex).__name__
+            try:
+                b = lab3(soupsieve.select(sel, soup, namespaces=nsdoc))
+                if '|' not in sel and lab3(soupsieve.select(sel, soup)) != b:
+                    b = ['without a prefix map:'] + lab3(soupsieve.select(sel, soup))
+            except BaseException as ex:  # noqa: BLE001
+                b = 'raise %s' % type(ex).__name__
+            out['results']['xml#3 | ' + sel] = [a, b]
 except BaseException as ex:  # noqa: BLE001
     out['errors'].append('query phase -> %s: %s' % (type(ex).__name__, str(ex)[:200]))
 json.dump(out, open(sys.argv[2], 'w'))
